@@ -44,6 +44,18 @@ pub enum Answer {
     Panic(String),
 }
 
+impl Answer {
+    /// Agreement with the reference: digests must be equal; the property fixes THAT an ill-formed query is an error,
+    /// not which error variant is returned, so any two errors agree. A panic never agrees.
+    pub fn agrees(&self, reference: &Answer) -> bool {
+        match (self, reference) {
+            (Answer::Err(_), Answer::Err(_)) => true,
+            (Answer::Panic(_), _) | (_, Answer::Panic(_)) => false,
+            _ => self == reference,
+        }
+    }
+}
+
 pub fn script_menu(i: usize) -> Vec<u8> {
     match i % 3 {
         0 => vec![],
@@ -340,7 +352,8 @@ pub fn check_query(r: &Report, c: &SigCase, lib_tx: &Transaction, lib_spent: &[T
     let mut cache = SighashCache::new(lib_tx);
     let got = ask(&mut cache, q, lib_spent);
     r.trace(1);
-    if got != exp {
+    // the property fixes digests and the fact that an ill-formed query is an error, not WHICH error variant is returned
+    if !got.agrees(&exp) {
         let idx_note = match q {
             Query::Legacy { idx, ty, .. } if ty & 0x1f == 3 && *idx >= c.tx.outs.len() => "/single-out-of-range",
             _ => "",
@@ -506,7 +519,7 @@ pub fn run(r: &Report) {
                 let exp_key = ref_answer(&c.tx, &c.spent, &Query::Taproot { idx, ty, annex: 0, leaf: 0, prev: PrevMode::All });
                 let got = guard(|| SighashCache::new(&lib_tx).taproot_key_spend_signature_hash(idx, &Prevouts::All(&lib_spent), sty, g).map(|h| h.to_byte_array()).map_err(|e| err_kind(&e)));
                 let got = match got { Ok(Ok(d)) => Answer::Digest(d), Ok(Err(e)) => Answer::Err(e), Err(p) => Answer::Panic(p) };
-                if Some(&got) != exp_key.as_ref() {
+                if !exp_key.as_ref().map_or(true, |e| got.agrees(e)) {
                     r.violation(format!("entry-point/taproot_key_spend_signature_hash/{:02x}", ty), json!({"tx": hex(&c.tx.enc_full()), "idx": idx, "ty": ty}), format!("{:?} vs reference {:?}", got, exp_key));
                 }
                 for (script, ver) in [(vec![0x51u8], 0xc4u8), (vec![0x51], 0xc0), (vec![0x52, 0x53], 0xc2), (gen::blob(300, 1), 0xfe), (vec![], 0x66)] {
@@ -533,7 +546,7 @@ pub fn run(r: &Report) {
                     });
                     for (name, got) in [("ScriptPath", via_path), ("TapLeafHash", via_hash)] {
                         let got = match got { Ok(Ok(d)) => Answer::Digest(d), Ok(Err(e)) => Answer::Err(e), Err(p) => Answer::Panic(p) };
-                        if got != exp {
+                        if !got.agrees(&exp) {
                             r.violation(format!("entry-point/taproot_script_spend_signature_hash({})/leaf-version-{:02x}", name, ver), json!({"tx": hex(&c.tx.enc_full()), "idx": idx, "ty": ty, "leaf_version": ver}), format!("{:?} vs reference {:?}", got, exp));
                         }
                     }
